@@ -53,6 +53,7 @@ if [ "$rc_main" = 0 ] && [ -n "$DEEP" ]; then
   say "check $PROP thorough: exit $rc $inv"
 fi
 git -C /repo checkout -- .
+( cd $VERIF && ./check build >/dev/null 2>&1 )   # never leave a harness built from a patched tree behind
 rm -rf "$VERIF_REPLAY_DIR"
 
 # --- 3. file it ------------------------------------------------------------------------
